@@ -31,9 +31,10 @@ func GenerateSquaresTable(limit int64) *SquaresTable {
 	// 3 squares can't produce everything, but this is compensated for
 	// so we only need to focus on n for which n == 2 (mod 4), with the
 	// tradeoff that limit is 4x as large
-	for i := int64(0); i*i <= 4*limit; i++ {
-		for j := int64(0); i*i+j*j <= 4*limit; j++ {
-			for k := int64(0); i*i+j*j+k*k <= 4*limit; k++ {
+	// (the entry for n is found through 4n+2: the largest value to split is 4*limit+2)
+	for i := int64(0); i*i <= 4*limit+2; i++ {
+		for j := int64(0); i*i+j*j <= 4*limit+2; j++ {
+			for k := int64(0); i*i+j*j+k*k <= 4*limit+2; k++ {
 				v := i*i + j*j + k*k
 				if v%4 != 2 {
 					continue
@@ -49,11 +50,15 @@ func GenerateSquaresTable(limit int64) *SquaresTable {
 func (t *SquaresTable) Split(delta *big.Int) ([]*big.Int, error) {
 	t_ := *t
 	v := delta.Int64()
-	if !delta.IsInt64() || v < 0 || v >= int64(len(t_)) || v%4 != 2 {
+	if !delta.IsInt64() || v < 0 || v%4 != 2 {
 		return nil, errors.New("value outside of table range")
 	}
 
+	// delta is 4n+2 for the n the table has an entry for
 	v = (v - 2) / 4
+	if v >= int64(len(t_)) || t_[v] == nil {
+		return nil, errors.New("value outside of table range")
+	}
 
 	return []*big.Int{big.NewInt(t_[v][0]), big.NewInt(t_[v][1]), big.NewInt(t_[v][2])}, nil
 }
